@@ -45,9 +45,11 @@ def main():
         proof = None
         if not args.no_build:
             proof = vlib.ensure_built(prop, extra_modules=getattr(mod, "EXTRA_PROOF_MODULES", ()))
-            if args.tier == "thorough" and proof.ok and hasattr(mod, "LEANCHECKER_MODULES"):
-                rc, out = vlib._run(["lake", "env", "leanchecker"] + list(mod.LEANCHECKER_MODULES), cwd=vlib.LEAN)
-                rep.extra["leanchecker"] = {"rc": rc, "tail": out[-300:]}
+            if args.tier == "thorough" and proof.ok:
+                # the toolchain's independent re-checker replays the compiled declarations through the kernel
+                lcm = list(getattr(mod, "LEANCHECKER_MODULES", ())) or (["FsProofs.%s" % prop] + list(getattr(mod, "EXTRA_PROOF_MODULES", ())))
+                rc, out = vlib._run(["lake", "env", "leanchecker"] + lcm, cwd=vlib.LEAN)
+                rep.extra["leanchecker"] = {"rc": rc, "modules": lcm, "tail": out[-300:]}
                 if rc != 0:
                     proof.bad.append(("leanchecker", out[-400:]))
         deep = proof is not None and not proof.ok
